@@ -1,5 +1,6 @@
 import MQ.Inv.RingMain
 import MQ.Inv.WakeMain
+import MQ.Inv.PinMain
 /-!
 # C14 — a parked futures task is always notified when it can make progress
 The protocol facts that exclude a lost wake-up, at the granularity of single shared-memory operations:
@@ -108,5 +109,16 @@ theorem C14_notify_drains_senders (σ : St) (t inp k : Nat) (hpc : (σ.th t).pc 
     | (simp [stepRun.startNotify2, St.goto, St.setTh, teardownStart]; done)
     | (unfold afterNotify; split <;> simp [St.goto, St.setTh]; done)
 
+
+/-- C14 (a sender that reports `Full` because of a pin has a future notifier): whenever the pin counter of a slot is
+not zero, some consumer is inside a pinned section on that slot — a thread in the middle of a receive attempt, which
+(see `C14_empty_attempt_wakes_senders_first` and the `nf true` steps that end every futures receive) calls
+`notify_all` on the senders' list before it waits or returns. -/
+theorem C14_pinned_slot_has_a_consumer_partial (N : Nat) (wait : WaitK) (fut : Bool) (hN : 0 < N) (ls : List Label)
+    (σ : St) (r : NRun (init N true wait fut) ls σ) (j : Nat) (h : σ.ref j ≠ 0) : ∃ u, pinned σ u j := by
+  obtain ⟨l, _, l2, l3⟩ := (pall_nrun r rfl (pall_init N wait fut hN)).1.p.cnt j
+  match l, l3, l2 with
+  | [], l3, _ => exact absurd l3 h
+  | u :: _, _, l2 => exact ⟨u, (l2 u).mp (List.mem_cons_self ..)⟩
 
 end MQ
